@@ -11,6 +11,10 @@ var New = map[string]func() any{}
 // NewPU returns a pointer to a fresh `<T>_PartialUpdate` for the corpus records.
 var NewPU = map[string]func() any{}
 
+// BatchEnc marshals {key: entity} the way a batch update body does (common.MarshalBatchEntities)
+// onto the given writer; vals are pointers to the generated record type.
+var BatchEnc = map[string]func(keys []int64, vals []any, w any) error{}
+
 // Defaults returns `New<T>WithDefaultValues()` for the records that have one.
 var Defaults = map[string]func() any{}
 
